@@ -559,6 +559,11 @@ func (res *Response) eoncodeHead() {
 	for k, vv := range res.header {
 		if _, ok := res.trailer[k]; !ok {
 			for _, v := range vv {
+				if !res.chunked && k == transferEncodingHeader && v == "chunked" {
+					// asked for after the framing was decided: the body
+					// is not chunked, so the head must not say it is.
+					continue
+				}
 				pdata = mempool.AppendString(pdata, k)
 				pdata = mempool.Append(pdata, ':', ' ')
 				pdata = mempool.AppendString(pdata, v)
